@@ -27,8 +27,13 @@ def main():
         mod = importlib.import_module(args.module)
         out = getattr(mod, args.fn)()
     except BaseException as e:      # noqa
-        out = {"verdict": "harness-error", "detail": f"{type(e).__name__}: {e}",
-               "traceback": traceback.format_exc()[-3000:]}
+        import vf.h as h
+        if isinstance(e, h.HarnessTargetMissing) or h.is_harness_fault(e):
+            # the harness reached for an internal name this tree no longer has: no verdict, never a finding
+            out = {"verdict": "inconclusive", "detail": f"harness target missing in this tree: {type(e).__name__}: {e}"}
+        else:
+            out = {"verdict": "harness-error", "detail": f"{type(e).__name__}: {e}",
+                   "traceback": traceback.format_exc()[-3000:]}
     sys.stdout = real_stdout
     print(json.dumps(out, default=str))
 
